@@ -98,11 +98,13 @@ class Scen:
         params = self.params(a)
         dk = dict(derivative_keys=derivative_keys) if derivative_keys is not None else dict(params=params)
         dyn = self.dyn if "dyn_loss" in on else None
+        # the batch dictionaries are handed over exactly as written (insertion order kept: no pytree round trip)
+        obd = {"pinn_in": a["oin"], "val": a["oval"], "eq_params": obs_eq or {}} if "observations" in on else None
         if kind == "ODE":
             loss = LossODE(u=self.net.u, dynamic_loss=dyn,
                            loss_weights=LossWeightsODE(dyn_loss=a["wd"], initial_condition=a["wi"], observations=a["wo"]),
                            initial_condition=(a["t0"], a["u0"]) if "initial_condition" in on else None, **dk)
-            batch = ODEBatch(temporal_batch=a["pts"])
+            batch = ODEBatch(temporal_batch=a["pts"], param_batch_dict=param_batch, obs_batch_dict=obd)
         else:
             fb, fic = self.fb, self.fic
             common = dict(u=self.net.u, dynamic_loss=dyn, **dk)
@@ -114,7 +116,8 @@ class Scen:
             if kind == "statio":
                 loss = LossPDEStatio(loss_weights=LossWeightsPDEStatio(dyn_loss=a["wd"], norm_loss=a["wn"],
                                                                        boundary_loss=a["wb"], observations=a["wo"]), **common)
-                batch = PDEStatioBatch(inside_batch=a["pts"], border_batch=a["bb"] if "boundary_loss" in on else None)
+                batch = PDEStatioBatch(inside_batch=a["pts"], border_batch=a["bb"] if "boundary_loss" in on else None,
+                                       param_batch_dict=param_batch, obs_batch_dict=obd)
             else:
                 if "initial_condition" in on:
                     common.update(initial_condition_fun=lambda x: fic(x))
@@ -122,13 +125,9 @@ class Scen:
                     dyn_loss=a["wd"], norm_loss=a["wn"], boundary_loss=a["wb"], observations=a["wo"],
                     initial_condition=a["wi"]), **common)
                 batch = PDENonStatioBatch(times_x_inside_batch=a["pts"],
-                                          times_x_border_batch=a["bb"] if "boundary_loss" in on else None)
-        if param_batch is not None:
-            batch = eqx.tree_at(lambda b: b.param_batch_dict, batch, param_batch, is_leaf=lambda x: x is None)
-        if "observations" in on:
-            batch = eqx.tree_at(lambda b: b.obs_batch_dict, batch,
-                                {"pinn_in": a["oin"], "val": a["oval"], "eq_params": obs_eq or {}},
-                                is_leaf=lambda x: x is None)
+                                          times_x_border_batch=a["bb"] if "boundary_loss" in on else None,
+                                          param_batch_dict=param_batch, obs_batch_dict=obd)
+
         return loss, params, batch
 
     # ---- specification of each term
